@@ -64,6 +64,37 @@ def meta_histories():
                       ['ChangeMeta', 'Item', 'index_together',
                        [['a', 'c'], ['b', 'c']]]]),
     ]))
+    # raw SQL (cannot be simulated) next to ordinary mutations
+    out.append(('raw-sql', v0, [
+        ('va', 'e1', [['AddField', 'Item', 'n1', 'Int', {'null': True},
+                       None],
+                      ['SQLRaw', 'fill_n1',
+                       ['UPDATE va_item SET n1 = 5;']]]),
+        ('va', 'e2', [['ChangeField', 'Item', 'a', {'max_length': 30},
+                       None, None]]),
+    ]))
+    return out
+
+
+def two_app_histories():
+    """Two apps with pending evolutions in one run, the first app's being
+    signature-only (no SQL)."""
+    v0 = P(A('va', [M('Item', [F('a', 'Char', max_length=20),
+                               F('b', 'Int', null=True)])]),
+           A('vab', [M('Thing', [F('t', 'Char', max_length=20)])]))
+    out = []
+    for name, first in (
+            ('sig-only-rename', ['RenameField', 'Item', 'b', 'bb',
+                                 {'db_column': 'b'}]),
+            ('sig-only-model-rename', ['RenameModel', 'Item', 'Zed',
+                                       'va_item']),
+            ('with-sql', ['AddField', 'Item', 'n1', 'Int', {'null': True},
+                          None])):
+        out.append(('two-app-' + name, v0, [
+            ('va', 'e1', [first]),
+            ('vab', 'e1', [['AddField', 'Thing', 'n1', 'Int',
+                            {'db_index': True}, 3]]),
+        ]))
     return out
 
 
@@ -75,6 +106,8 @@ def cases_for(tier):
     for name, v0, steps in meta_histories():
         for i, k in ((0, 1), (0, 2), (1, 2)):
             out.append((name, v0, steps, i, k))
+    for name, v0, steps in two_app_histories():
+        out.append((name, v0, steps, 0, 2))
     hs = c04.gen_histories(c03.narrow_start(), 2, 'lite', c04.KINDS)
     stride = 4 if tier == 'quick' else 1
     for n, steps in enumerate(hs):
@@ -127,7 +160,8 @@ def preview(hist, image, k, hint=False):
 
 def preview_lines(stdout):
     return [l for l in stdout.splitlines()
-            if l.strip() and not l.startswith('--')]
+            if l.strip() and not l.startswith('--') and
+            not l.startswith('Evolution could not be simulated')]
 
 
 def check_preview_vs_execute(case, stats, add):
